@@ -55,7 +55,49 @@ def cases(seed, tier):
         fam = ["rowlists", "columns", "rowcol", "reject", "bin-vs-text", "slices-sampled"][i % 6]
         out.append({"family": fam, "delim": DELIMS[(i // 6) % 5], "n": int([1, 2, 3, 4, 7, 30][(i // 30) % 6]),
                     "sub": int(rng.integers(0, 2**31))})
+    for i in range(1 if tier == "quick" else 4):
+        out.append({"family": "big-binary", "delim": None, "n": 0, "sub": int(rng.integers(0, 2**31))})
     return out
+
+
+def run_big_binary(case, rng, path):
+    """a binary table of 18-40 MB (row size from a small random dtype, rarely a power of two): strided and plain slices
+    through the recfile and the sfile route against numpy indexing of the table that was written"""
+    from esutil import sfile, recfile
+    descr = [("id", "<i4"), ("x", ">f8"), ("tag", "S%d" % int(rng.integers(1, 13)))] + ([("k", "<u2")] if rng.random() < .5 else [])
+    rowsize = np.dtype(descr).itemsize
+    n = int(rng.uniform(18, 40) * 2 ** 20 / rowsize)
+    table = np.zeros(n, dtype=descr)
+    table["id"] = np.arange(n, dtype="i8") % (2 ** 31 - 1)
+    table["x"] = np.arange(n) * 0.5
+    table["tag"] = np.array([b"a", b"bc", b"xyz"])[np.arange(n) % 3]
+    COL.sample({"family": "big-binary", "n": n, "rowsize": rowsize}, limit=2)
+    wit = {"n": n, "rowsize": rowsize}
+    sfile.write(path, table)
+    rpath = path + ".raw"
+    with recfile.Recfile(rpath, "w") as rf:
+        rf.write(table)
+    sels = [slice(None, None, 2), slice(None, None, 3), slice(None, None, 7), slice(1, None, 3), slice(5, n - 3, 5),
+            slice(-n - 2, n + 2, int(rng.integers(2, 12))), slice(int(rng.integers(0, n // 2)), int(rng.integers(n // 2, n)), int(rng.integers(2, 9))),
+            slice(n - 5, None), slice(None, 4)]
+    with sfile.SFile(path) as sf, recfile.Recfile(rpath, dtype=table.dtype, nrows=n) as rf:
+        for sl in sels:
+            exp = table[sl]
+            for nm, ob in (("SFile", sf), ("Recfile", rf)):
+                got, e = probe.attempt(ob.__getitem__, sl)
+                if e is not None:
+                    COL.violation("C02.slice", "%s[%r] on a %d-row binary table raised %s: %s" % (nm, sl, n, type(e).__name__, str(e)[:120]), wit)
+                elif got.shape != exp.shape or got.tobytes() != exp.tobytes():
+                    j = int(np.nonzero(got["id"] != exp["id"])[0][0]) if got.shape == exp.shape and (got["id"] != exp["id"]).any() else -1
+                    COL.violation("C02.slice", "%s[%r] on a %d-row binary table (%d-byte rows) differs from indexing the table at output row %d" % (
+                        nm, sl, n, rowsize, j), wit, key="big-binary-slice")
+                else:
+                    COL.ok("C02.slice", ("big", nm, sl.step or 1, rowsize))
+    for f in (path, rpath):
+        try:
+            os.unlink(f)
+        except OSError:
+            pass
 
 
 def install():
@@ -286,6 +328,8 @@ def run_case(case):
     path = os.path.join(d, "c02_%d.rec" % case["_i"])
     if fam == "bin-vs-text":
         return run_bin_vs_text(case, rng, path)
+    if fam == "big-binary":
+        return run_big_binary(case, rng, path)
     table = make_table(rng, delim, n)
     start = write_file(path, table, delim)
     names = list(table.dtype.names)
